@@ -389,3 +389,7 @@ Fixpoint rle_deltas_from (prev : Z) (l : list Z) (acc : list (Z * Z)) : list (Z 
   | x :: r => rle_deltas_from x r (rle_add (x - prev) acc)
   end.
 Definition rle_deltas (l : list (option Z)) : list (Z * Z) := rle_deltas_from 0 (map optz_code l) [].
+
+(** the same observable with Coq string literals (only used on printable-ASCII alphabets: faster to print) *)
+Definition out_uri_s (r : option (str * str)) : option (string * string) :=
+  match r with None => None | Some (f, g) => Some (string_of_list_ascii f, string_of_list_ascii g) end.
